@@ -36,6 +36,7 @@ SITE_POOL: List[Tuple[float, float]] = [
     (39.7590, -104.9855),
     (39.7459, -104.9880),  # 100 m north of site 1
 ]
+SCHEDULE_IDS = ["sh0", "Late", "NIGHT", "day_2"]  # ids are free text: capitals, digits, underscores
 VEHICLE_IDS = ["v1", "v2", "v3", "v10", "v11", "v20", "va", "vb", "v02", "v100"]  # lexical != numeric order
 ELECTRIC_PLUGS = ["DCFC", "LEVEL_2", "LEVEL_1"]
 ALL_PLUGS = ["DCFC", "LEVEL_2", "LEVEL_1", "GAS_PUMP"]
@@ -171,13 +172,13 @@ def st_world(draw, prof: Optional[Dict[str, Any]] = None) -> Dict[str, Any]:
         for i in range(2):
             a = (start + draw(st.sampled_from([-600, 0, dt, 5 * dt, 20 * dt]))) % 86400
             b_ = (a + draw(st.sampled_from([dt, 10 * dt, 40 * dt, 3600 * 6]))) % 86400
-            schedules.append([f"sh{i}", _hms(a), _hms(b_)])
+            schedules.append([SCHEDULE_IDS[i], _hms(a), _hms(b_)])
     # vehicles
     nv = draw(st.integers(*p["nv"]))
     ids = draw(st.permutations(VEHICLE_IDS))[:nv]
     vehicles = []
     for vid in ids:
-        human = p["humans"] and draw(st.sampled_from([False, False, False, True]))
+        human = p["humans"] and draw(st.sampled_from(p.get("human_share", [False, False, False, True])))
         vehicles.append(
             {
                 "id": vid,
